@@ -60,6 +60,17 @@ theorem C15_take_best_spec {R K : Type} [LinearOrder K] (c : Cfg R) (its : List 
   · obtain ⟨_, v, hv', hmin⟩ := Argmin.argmin_min (start :: rest) (by simp)
     exact Or.inr ⟨hw, row, hrow, hv, ht, hk, v, hv', hmin, hmin start (by simp)⟩
 
+/-- unit weights: `reload(i)` puts row i's knob values back bit for bit -/
+theorem C15_reload_row_unit_weights {R : Type} (c : Cfg R) (i : Nat) (row : Row R) (s : St R) (r : Except Err Unit)
+    (s' : St R) (hunit : ∀ j x, c.mulW j (c.divW j x) = x)
+    (hrow : s.log[i]? = some row) (h : reload c i s = (r, s')) :
+    s'.vAct = row.vAct ∧ s'.tAct = row.tAct ∧ ∀ j, s'.knobs j = row.knobs j := by
+  obtain ⟨h1, h2, h3⟩ := reload_frame c i row s r s' hrow h
+  refine ⟨h1, h2, fun j => ?_⟩
+  rcases h3 j with hj | hj
+  · exact hj
+  · rw [hj, hunit]
+
 /-- every operation only appends to the log: rows are never rewritten -/
 theorem C15_log_append_only {R : Type} (c : Cfg R) (its : List (Iter R)) (tb : Option Nat) : LM (optStep c its tb) :=
   LM_optStep c its tb
